@@ -296,8 +296,8 @@ impl Property for C12 {
     }
     fn cases(&self, tier: Tier) -> usize {
         match tier {
-            Tier::Quick => 6_000,
-            Tier::Thorough => 60_000,
+            Tier::Quick => 12_000,
+            Tier::Thorough => 150_000,
         }
     }
     fn tape_max(&self) -> usize {
